@@ -113,6 +113,12 @@ func runC05(ctx *Ctx, c c05Case) {
 	if !strings.HasSuffix(driver, "_default_sink") {
 		class = "c05.early-return-nonsink-driver" // F1: a process without out-ports drives, the sink is never run
 	}
+	if finalizedBefore != total && !c.Dag.balanced() {
+		// F20c: with unbalanced streams a consumer abandons its ports; nobody waits for the processes upstream
+		// of an abandoned port, so Run may return while their tasks still run, or before they were created
+		ctx.Res.Violate(Violation{What: fmt.Sprintf("unbalanced streams: Run returned after %d of %d tasks had finished (driver %s; %d finished by the time the program ended)", finalizedBefore, total, driver, finalizedAll), Class: "c05.unbalanced-early-return", Witness: c})
+		return
+	}
 	if finalizedBefore != total {
 		ctx.Res.Violate(Violation{What: fmt.Sprintf("Run returned after %d of %d tasks had finished (driver %s; %d finished by the time the program ended)", finalizedBefore, total, driver, finalizedAll), Class: class, Witness: c})
 		return
